@@ -224,6 +224,31 @@ def invariant(A, rows, ctx, case):
                 return True
             ck('operator', run)
             ctx.guard('operators_checked')
+    # numpy scalars are scalars too (left and right operand)
+    for sym, f in (('-', lambda a, b: a - b), ('*', lambda a, b: a * b), ('<', lambda a, b: a < b)):
+        for side in ('left', 'right'):
+            def run2(sym=sym, f=f, side=side):
+                sc = np.float64(3.0) if dt.kind == 'f' else np.int64(3)
+                res = f(sc, A) if side == 'left' else f(A, sc)
+                want = [f(sc, r) if side == 'left' else f(r, sc) for r in rows]
+                if not hasattr(res, 'lengths') or list(res.lengths) != L:
+                    return 'numpy scalar on the %s of %s: result %r is not a ragged array with the same rows' % (side, sym, type(res).__name__)
+                if [np.asarray(r).tolist() for r in res] != [w.tolist() for w in want]:
+                    return 'numpy scalar on the %s of %s: %r != %r' % (side, sym, [np.asarray(r).tolist() for r in res], [w.tolist() for w in want])
+                return True
+            ck('operator_numpy_scalar', run2)
+    # operands with a different row structure (same total size) cannot be combined element-wise
+    if len(L) >= 2:
+        L2 = L[1:] + L[:1] if len(set(L)) > 1 else [L[0] - 1] + L[1:-1] + [L[-1] + 1]
+        if all(x > 0 for x in L2) and L2 != L:
+            def run3():
+                other = ra.RaggedArray(flat.copy(), lengths=np.array(L2))
+                try:
+                    res = A + other
+                except Exception:
+                    return True
+                return 'A + B with row lengths %r and %r returned %r instead of raising' % (L, L2, [np.asarray(r).tolist() for r in res])
+            ck('operator_structure_mismatch', run3)
     if dt.kind == 'i':
         ck('invert', lambda: ([np.asarray(r).tolist() for r in ~A] == [(~r).tolist() for r in rows] and
                               np.asarray(A._data).tolist() == flat.tolist()) or '~A wrong or modified A')
